@@ -208,7 +208,7 @@ def _ast_orders():
     sel = _tail_order(rest, ("_orderby_sql", "_apply_pagination", "_for_update_sql", "_limit_sql", "_offset_sql"), is_subquery_if)
     up = _tail_order(upd[0].body, ("_where_sql", "_limit_sql", "_offset_sql", "_apply_pagination", "_orderby_sql"), is_return)
     so = _tail_order(method("_SetOperation", "get_sql").body,
-                     ("_orderby_sql", "_limit_sql", "_offset_sql"), is_subquery_if)
+                     ("_orderby_sql", "_apply_pagination", "_limit_sql", "_offset_sql"), is_subquery_if)
     # pagination must not be called anywhere before the tail in the SELECT path
     allsel = []
     for s in rest:
@@ -250,19 +250,6 @@ def extract():
         off_rows.append(P(cq, P(strs(ot[0]), strs(ot[1])), S(o_none), S(o_zero)))
     out.append("Definition x_limit_tpl : list (cls * (list string * list string)) :=\n " + L(lim_rows) + ".")
     out.append("Definition x_offset_tpl : list (cls * (list string * list string) * string * string) :=\n " + L(off_rows) + ".")
-    so_rows = []
-    so_tpl = {}
-    for cq, py in CLASSES:
-        u = _base(py, "setop")
-        u._limit = 7
-        lt = _template(u._limit_sql(), "7")
-        u._offset = 5
-        ot = _template(u._offset_sql(), "5")
-        so_tpl[py] = (lt, ot)
-        so_rows.append(P(cq, P(strs(lt[0]), strs(lt[1])), P(strs(ot[0]), strs(ot[1]))))
-    out.append("Definition x_setop_tpl : list (cls * (list string * list string) * (list string * list string)) :=\n "
-               + L(so_rows) + ".")
-
     # ---- grid: tail text for (n, m) in {None,0,7} x {None,0,5}, calls issued through the builder methods,
     #      in both call orders; structure = which pieces, in which order
     grid_rows, struct_rows = [], []
@@ -290,9 +277,7 @@ def extract():
                                            % (py, kind, n, m, tails[0], tails[1]))
                     tail = tails[0]
                     grid_rows.append(P(cq, kq, OZ(n), OZ(m), S(tail)))
-                    lt, ot, o_none, o_zero = tpls[py]
-                    if kind == "setop":
-                        (lt, ot), o_none, o_zero = so_tpl[py], "None", "0"
+                    lt, ot, o_none, o_zero = tpls[py]     # a set operation paginates through a builder of its base class
                     ltxt = _fill(lt, str(n))
                     otxt = _fill(ot, str(m) if m else (o_none if m is None else o_zero))
                     cands = {"[]": "", "[PLimit]": ltxt, "[POffset]": otxt, "[PLimit; POffset]": ltxt + otxt,
@@ -550,7 +535,7 @@ def corpus():
         c("SQLLiteQuery", "select", [["orderby"], ["offset", 5]]),
         c("Query", "select", [["slice", 5, None]]),
         c("MySQLQuery", "setop", [["offset", 3], ["orderby"]]),
-        # known finding: set operations of FETCH-family classes use LIMIT/OFFSET
+        # fixed in the repository (8f3d161): set operations of FETCH-family classes paginate in their dialect's syntax
         c("OracleQuery", "setop", [["orderby"], ["limit", 7], ["offset", 5]]),
         c("MSSQLQuery", "setop", [["limit", 0]], setop="union_all"),
         # known finding: MSSQL UPDATE .. FETCH NEXT without the OFFSET the dialect requires
